@@ -49,4 +49,12 @@ theorem escape_iff_kafka (e : GErr) : escapeRejoins e = Afkak.Monitor.C17.isKafk
 theorem lookup_propagate_nonKafka (e : GErr) : coordFailRow e = .propagate ↔ Afkak.Monitor.C17.isKafka e = false := by
   cases e <;> decide
 
+/-- while running, every row either schedules a rejoin or is fatal -/
+theorem running_rejoin_or_fatal (e : GErr) : (rejoinRow false e).act = .rejoin ∨ (rejoinRow false e).act = .fatal := by
+  cases e <;> decide
+
+/-- an escaping error that is routed to `rejoin_after_error` is never fatal there -/
+theorem escape_not_fatal (st : Bool) (e : GErr) (h : escapeRejoins e = true) : (rejoinRow st e).act ≠ .fatal := by
+  cases st <;> cases e <;> simp_all [escapeRejoins] <;> decide
+
 end Afkak.Group.Tables
